@@ -335,6 +335,9 @@ def check_model_order(tier, seed):
                 cfg = base_cfg(s, folds=k)
                 first = analysis(cfg, d / ("k%d_s%d_first" % (k, s)), keep_raw=True)
                 models = first["raw"]["models"]
+                if not first["trained"]:        # nothing to feed back: brew rejects untrained models by contract
+                    ck.case(("order", s, k, "first run left a fold model untrained"), nontrivial=False)
+                    continue
                 coefs = [model_bytes(m)[3] for m in models]
                 distinct = first["trained"] and len(set(coefs)) == len(coefs)
                 for perm in itertools.permutations(range(k)):
